@@ -521,3 +521,26 @@ Theorem ps_utf16_refused_refuted :
   ps_hashin 1 [255; 254; 10; 1] = Err E_UTF16 /\
   ps_hashin 1 [255; 254; 97; 0; 10] = Ok [255; 254; 97; 0; 10; 0] /\ ps_embed 1 [255; 254; 97; 0; 10] [1] = Err E_COPY.
 Proof. vm_compute. repeat split; reflexivity. Qed.
+
+(* ================================================================== the domain is closed under signing *)
+Lemma dom_scan_found first crlf ok : forall PL saved rest, Forall (fun l => l <> first) PL ->
+  dom_scan first crlf ok saved (PL ++ first :: rest) = has_suffix (List.last PL saved) crlf.
+Proof.
+  induction PL as [|l PL IH]; intros saved rest H.
+  - cbn [app dom_scan List.last]. now rewrite bytes_eqb_refl.
+  - inversion H as [|? ? Hl H']; subst. cbn [app dom_scan].
+    replace (bytes_eqb l first) with false by (symmetry; now apply bytes_eqb_neq).
+    destruct (PL ++ first :: rest) as [|x y] eqn:E; [destruct PL; discriminate|]. rewrite <- E.
+    rewrite IH by assumption. now rewrite last_cons.
+Qed.
+Theorem ps_dom_preserved style f b g : ps_embed_wf style f b = Ok g -> ps_dom style g = true.
+Proof.
+  intros He. apply embed_wf_inv in He as [Hd [Hb He]].
+  destruct (embed_form _ _ _ _ Hd Hb He) as [st [en [Ls [s E]]]]. destruct E as [Xstyle Xsty Xcl Xnf Xg _ Xis _ _ _].
+  unfold ps_dom. rewrite Xstyle, Xis.
+  pose proof (signed_lines (ps_is16 f) st en (Ls ++ [s ++ crlfW (ps_is16 f)]) b Xsty Xcl Hb) as Hl. cbv zeta in Hl. rewrite <- Xg in Hl.
+  rewrite Hl. fold (firstW (ps_is16 f) st en). fold (crlfW (ps_is16 f)).
+  rewrite dom_scan_found by assumption. rewrite last_last, has_suffix_app. cbn [andb]. apply Z.eqb_eq. f_equal.
+  rewrite (concat_app (Ls ++ [s ++ crlfW (ps_is16 f)])). cbn [concat].
+  rewrite (concat_app (map (wline (ps_is16 f) st en) (chunks64 (b64_enc b)))). cbn [concat]. rewrite !app_nil_r. symmetry. exact Xg.
+Qed.
